@@ -1172,8 +1172,10 @@ sansScaling (const Matrix33<T>& mat, bool exc)
 
     Matrix33<T> M;
 
+    // Matrix33::rotate post-multiplies, so build rotation * translation
+    // explicitly to obtain shear * rotation * translation.
     M.translate (tran);
-    M.rotate (rot);
+    M = Matrix33<T> ().setRotation (rot) * M;
     M.shear (shr);
 
     return M;
@@ -1190,9 +1192,11 @@ removeScaling (Matrix33<T>& mat, bool exc)
 
     if (!extractSHRT (mat, scl, shr, rot, tran, exc)) return false;
 
+    // Matrix33::rotate post-multiplies, so build rotation * translation
+    // explicitly to obtain shear * rotation * translation.
     mat.makeIdentity ();
     mat.translate (tran);
-    mat.rotate (rot);
+    mat = Matrix33<T> ().setRotation (rot) * mat;
     mat.shear (shr);
 
     return true;
